@@ -13,6 +13,7 @@ commits of findings/C16.txt; the snapshot's behaviour is kept as `spliceOld`, `t
 `cloneWith false` for the counterexample theorems.
 -/
 import Kap.Proofs.C16Ticks
+import Kap.Proofs.C16Range
 namespace Kap.Props.C16
 open Kap.C16
 
@@ -67,8 +68,8 @@ theorem spliceOld_loses_time_bound :
 returns the same query: the walk picks the two literals NewQuery created (never a user predicate) and the
 group-by literals of the statement. `userNoTL`: no user atom is an in-memory TimeLiteral — true of every
 parsed text (printing erases the flag: `parse_print`; influxql's parser has no TimeLiteral production). -/
-theorem clone_finds_the_spliced_literals (user : Option Cond) (gb : Option (Int × Int)) (ag : Bool) (q : Query)
-    (hq : Reach user gb ag q) (hu : userNoTL user = true) : q.clone = some q := reach_clone hq hu
+theorem clone_finds_the_spliced_literals (user : Option Cond) (gb : Option (Int × Int)) (ag : Bool) (extra : String)
+    (q : Query) (hq : Reach user gb ag q extra) (hu : userNoTL user = true) : q.clone = some q := reach_clone hq hu
 
 /-- Clone NEVER adopts a literal of the user's condition — even for trees no parser produces (user atoms that
 are in-memory TimeLiterals): whenever it succeeds, `startTL`/`stopTL` are the two spliced literals; with such a
@@ -94,13 +95,13 @@ theorem clone_never_adopts_user_literal (user : Option Cond) (s e : Int) (q' : Q
 
 /-- Setting a range on ANY reachable state (fresh, after any live ticks, or a clone) issues exactly the text
 that depends on the configuration and the range only. -/
-theorem issued_text_depends_on_range_only (user : Option Cond) (gb : Option (Int × Int)) (ag : Bool) (q : Query)
-    (hq : Reach user gb ag q) (r : Int × Int) :
-    (q.setRange r).issue = issueFor user gb ag r ∧ Reach user gb ag (q.setRange r) :=
+theorem issued_text_depends_on_range_only (user : Option Cond) (gb : Option (Int × Int)) (ag : Bool) (extra : String)
+    (q : Query) (hq : Reach user gb ag q extra) (r : Int × Int) :
+    (q.setRange r).issue = issueFor user gb ag r extra ∧ Reach user gb ag (q.setRange r) extra :=
   ⟨(reach_setRange hq r).2, (reach_setRange hq r).1⟩
 
-theorem newQuery_reachable (user : Option Cond) (gb : Option (Int × Int)) (ag : Bool) :
-    Reach user gb ag (newQuery user gb ag) := reach_new user gb ag
+theorem newQuery_reachable (user : Option Cond) (gb : Option (Int × Int)) (ag : Bool) (extra : String) :
+    Reach user gb ag (newQuery user gb ag extra) extra := reach_new user gb ag extra
 
 /-- Counterexample (the defect repaired by b9dddd3): with the snapshot's Clone (detached group-by literals)
 and alignGroup, the historical query for the tick at 17 says `time(4, 0)`, the live one `time(4, 3)`. Replayed
@@ -115,20 +116,22 @@ theorem cloneOld_keeps_stale_group_offset :
 
 /-- **range_exact.** Whatever ticks came before (the node mutates ONE query object), the text issued at tick T
 is the configuration's text for [T − offset − period, T − offset) … -/
-theorem live_queries_exact (user : Option Cond) (gb : Option (Int × Int)) (ag : Bool) (offset period : Int)
-    (ticks : List Int) :
-    liveRun offset period (newQuery user gb ag) ticks =
-      ticks.map (fun T => issueFor user gb ag (rangeOfTick offset period T)) := by
-  rw [liveRun_eq offset period ticks _ (reach_new user gb ag)]
+theorem live_queries_exact (user : Option Cond) (gb : Option (Int × Int)) (ag : Bool) (extra : String)
+    (offset period : Int) (ticks : List Int) :
+    liveRun offset period (newQuery user gb ag extra) ticks =
+      ticks.map (fun T => issueFor user gb ag (rangeOfTick offset period T) extra) := by
+  rw [liveRun_eq offset period ticks _ (reach_new user gb ag extra)]
   rfl
 
-/-- … and that text means: user condition AND stop − period ≤ time < stop with stop = T − offset. -/
+/-- … and that text means: user condition AND stop − period ≤ time < stop with stop = T − offset; fill option
+and tag / `*` dimensions are the configured ones. -/
 theorem issued_query_meaning (toks : List Tok) (c : Cond) (hp : parse toks = some c)
-    (gb : Option (Int × Int)) (ag : Bool) (offset period T : Int) :
-    ∃ t, (issueFor (some c) gb ag (rangeOfTick offset period T)).cond = some t ∧
+    (gb : Option (Int × Int)) (ag : Bool) (extra : String) (offset period T : Int) :
+    ∃ t, (issueFor (some c) gb ag (rangeOfTick offset period T) extra).cond = some t ∧
+      (issueFor (some c) gb ag (rangeOfTick offset period T) extra).extra = extra ∧
       RangeSpec (some c) t (T - offset - period) (T - offset) := by
   obtain ⟨t, h1, h2⟩ := splice_semantics toks c hp (T - offset - period) (T - offset)
-  exact ⟨t, h1, h2⟩
+  exact ⟨t, h1, rfl, h2⟩
 
 /-- alignGroup: the offset written by SetStartTime aligns the buckets with the start of the range. -/
 theorem aligngroup_offset_aligned (s len : Int) : gbAligned s (len, Int.tmod s len) = true := by
@@ -215,12 +218,12 @@ theorem historical_equals_live_cron (K : Int) (hK : 0 < K) (start stop now offse
 /-- The texts: `Queries(start, stop)` on a node in ANY reachable state (fresh, or after any live ticks) returns
 exactly the texts a fresh task's live ticks at those times issue — conditions, ranges and group-by offsets. -/
 theorem historical_texts_equal_live_texts (user : Option Cond) (hu : userNoTL user = true)
-    (gb : Option (Int × Int)) (ag : Bool) (next : Int → Option Int) (offset period : Int)
-    (q : Query) (hq : Reach user gb ag q) (start : Int) (stop : Option Int) (now : Int) :
+    (gb : Option (Int × Int)) (ag : Bool) (extra : String) (next : Int → Option Int) (offset period : Int)
+    (q : Query) (hq : Reach user gb ag q extra) (start : Int) (stop : Option Int) (now : Int) :
     queries next offset period q start stop now =
-      some (liveRun offset period (newQuery user gb ag)
+      some (liveRun offset period (newQuery user gb ag extra)
         (histTicks next (effStop stop now) now offset (histFuel start (effStop stop now)) start)) := by
-  rw [queries_eq next offset period q hq hu, liveRun_eq offset period _ _ (reach_new user gb ag)]
+  rw [queries_eq next offset period q hq hu, liveRun_eq offset period _ _ (reach_new user gb ag extra)]
 
 /-- The Go loop has no fuel: any fuel above `stop − start` gives the same list (so the model's bound loses
 nothing), whenever `next` moves forward. -/
@@ -229,36 +232,82 @@ theorem queries_fuel_irrelevant (next : Int → Option Int) (stop now offset sta
     histTicks next stop now offset (histFuel start stop + k) start = histTicks next stop now offset (histFuel start stop) start :=
   histTicks_fuel next stop now offset hinc _ _ k (by simp [histFuel])
 
-/-- The closed form the driver's spec check uses IS the first live tick after `t` (for `t` at or after the
-start; for the unaligned ticker, on its own grid). -/
+/-- … and for a cron schedule that ENDS (firing times `fires`, ascending): after the last firing `Next` is the zero
+time, the loop stops (`current.IsZero()`), and nothing is missing. -/
+theorem historical_equals_live_cron_ending (fires : List Int) (hs : fires.Pairwise (· < ·))
+    (start stop now offset period : Int) :
+    HistSpec (LiveTick (.cronList fires) start) start stop now offset period
+      ((histTicks (cronListNext fires) stop now offset (histFuel start stop) start).map (tickRange offset period)) := by
+  apply historical_equals_live_of_next
+  intro t ht
+  exact isNext_cronList fires hs start t (by rcases ht with rfl | ⟨h, _⟩ <;> omega)
+
+/-- The closed form the driver's spec check uses (`firstLiveAfter`, with which it validates the injected tick
+lists and hence `historical-equals-live`) IS the first live tick after `t` — or `none` exactly when there is none
+(for `t` at or after the start; for the unaligned ticker, on its own grid). -/
 theorem firstLiveAfter_least (sch : Schedule) (s0 t : Int)
-    (hs : match sch with | .every d _ => 0 < d | .cronEvery K => 0 < K)
+    (hs : match sch with | .every d _ => 0 < d | .cronEvery K => 0 < K | .cronList fires => fires.Pairwise (· < ·))
     (ht : match sch with
       | .every _ false => t = s0 ∨ (s0 < t ∧ LiveTick sch s0 t = true)
       | _ => s0 ≤ t) :
-    t < firstLiveAfter sch s0 t ∧ LiveTick sch s0 (firstLiveAfter sch s0 t) = true ∧
-    ∀ u, t < u → LiveTick sch s0 u = true → firstLiveAfter sch s0 t ≤ u := by
+    IsNext (LiveTick sch s0) (firstLiveAfter sch s0) t := by
   match sch, hs, ht with
   | .every d true, hs, ht =>
     have h := isNext_aligned d s0 t hs ht
-    have e : firstLiveAfter (.every d true) s0 t = tickerNext d true t := by
+    have e : firstLiveAfter (.every d true) s0 t = some (tickerNext d true t) := by
       have := Int.mul_ediv_add_emod (t + zeroOff) d
-      simp only [firstLiveAfter, tickerNext, ↓reduceIte, goTruncate_eq t d hs]
+      simp only [firstLiveAfter, tickerNext, ↓reduceIte, goTruncate_eq t d hs, Option.some.injEq]
       rw [Int.add_mul, Int.mul_comm]; omega
-    rw [e]; exact h
+    unfold IsNext at h ⊢; rw [e]; exact h
   | .every d false, hs, ht =>
     have h := isNext_unaligned d s0 t hs ht
-    have e : firstLiveAfter (.every d false) s0 t = tickerNext d false t := by
-      simp only [firstLiveAfter, tickerNext, Bool.false_eq_true, ↓reduceIte]
+    have e : firstLiveAfter (.every d false) s0 t = some (tickerNext d false t) := by
+      simp only [firstLiveAfter, tickerNext, Bool.false_eq_true, ↓reduceIte, Option.some.injEq]
       have hk : (t - s0) % d = 0 := by
         rcases ht with rfl | ⟨_, h2⟩
         · simp
         · simp only [LiveTick, Bool.and_eq_true, decide_eq_true_eq] at h2; exact h2.2
       have := Int.mul_ediv_add_emod (t - s0) d
       rw [Int.add_mul, Int.mul_comm]; omega
-    rw [e]; exact h
+    unfold IsNext at h ⊢; rw [e]; exact h
   | .cronEvery K, hs, ht =>
     exact isNext_cronEvery K s0 t hs ht
+  | .cronList fires, hs, ht =>
+    exact isNext_cronList fires hs s0 t ht
+
+/-! ### (5b) no setting crashes the node; the batch carries the window's end -/
+
+/-- **No division by zero.** `Query.Dimensions` now refuses a time dimension that is not positive; in every state an
+accepted node's query can reach, `SetStartTime`'s `% groupByTimeDL.Val` has a non-zero divisor. -/
+theorem accepted_dimensions_never_trap (user : Option Cond) (gb : Option (Int × Int)) (ag : Bool) (extra : String)
+    (q : Query) (hv : validDims gb = true) (hq : Reach user gb ag q extra) : q.setStartTimeTraps = false := by
+  obtain ⟨s, e, g, rfl, hg, _⟩ := hq
+  cases g with
+  | none => simp [Query.setStartTimeTraps]
+  | some a =>
+    cases gb with
+    | none => simp at hg
+    | some b =>
+      simp only [Option.map_some, Option.some.injEq] at hg
+      obtain ⟨len, o⟩ := a
+      obtain ⟨len', o'⟩ := b
+      simp only [validDims, decide_eq_true_eq] at hv
+      simp only at hg
+      have : len ≠ 0 := by omega
+      simp [Query.setStartTimeTraps, this]
+
+/-- Counterexample (the defect repaired by the fourth `fix:` commit of findings/C16.txt): `groupBy(time(0s))` with
+`alignGroup()` was accepted, and the first `SetStartTime` divides by zero — in `doQuery`'s goroutine, which nothing
+recovers: the whole process dies. Replayed on the real code by corpus/C16/time0-aligngroup.ops. -/
+theorem time0_alignGroup_trapped :
+    validDims (some (0, 0)) = false ∧ (newQuery none (some (0, 0)) true).setStartTimeTraps = true := by decide
+
+/-- The batch handed downstream carries the window's end (`stop = tick − offset`) whenever the query is not grouped
+by time (and then the result's own latest point time, or again the stop without points). -/
+theorem batch_time_is_window_end (grouped : Bool) (ptMax : Option Int) (offset period tick : Int) :
+    batchTimeHolds grouped ptMax (rangeOfTick offset period tick).2
+      (batchTime grouped ptMax (tickRange offset period tick).2) = true := by
+  cases grouped <;> cases ptMax <;> simp [batchTimeHolds, batchTime, rangeOfTick, tickRange]
 
 /-! ### (6) declared sources only -/
 
@@ -288,13 +337,13 @@ theorem only_declared_dbrps (declared : List DBRP) (nodes : List (List DBRP)) :
     intro hall
     exact hc (hall d hd)
 
-/-! ### stated, not proved -/
+/-! ### the driver's finite check is exact -/
 
-/-- The driver's finite check `rangeHolds` (all assignments of the comparisons that occur × all times next to
-a literal that occurs) decides `RangeSpec`: between two neighbouring literals no comparison changes. Not
-proved; the driver's verdicts rely on it only to JUDGE observed texts, the theorems above do not use it. -/
-def rangeHolds_decides_RangeSpec_stmt : Prop :=
-  ∀ (user : Option Cond) (issued : Cond) (s e : Int), rangeHolds user issued s e = true ↔ RangeSpec user issued s e
+/-- `rangeHolds` — what the driver evaluates on every OBSERVED text (all assignments of the comparisons that
+occur × all times next to a literal that occurs) — holds exactly when `RangeSpec` does (all rows): the driver's
+SPECFAIL `time-bound-and-user-condition` / `live-range-exact` verdicts are neither too weak nor too strong. -/
+theorem rangeHolds_decides_RangeSpec (user : Option Cond) (issued : Cond) (s e : Int) :
+    rangeHolds user issued s e = true ↔ RangeSpec user issued s e := rangeHolds_iff user issued s e
 
 /-! ### non-vacuity: the hypotheses are met by concrete, non-trivial instances -/
 
@@ -302,8 +351,10 @@ example : (parse [.lp, .atom (.opq 1), .op .or, .atom (.opq 2), .rp, .op .and, .
     (fun c => c.canon && userNoTL (some c) && c.natoms == 4) = some true := by decide
 
 example : Reach (some (.atom (.opq 1))) (some (4, 0)) true
-    ((newQuery (some (.atom (.opq 1))) (some (4, 0)) true).setRange (7, 17)) :=
-  (reach_setRange (reach_new _ _ _) _).1
+    ((newQuery (some (.atom (.opq 1))) (some (4, 0)) true "fill(0);host").setRange (7, 17)) "fill(0);host" :=
+  (reach_setRange (reach_new _ _ _ _) _).1
+example : histTicks (cronListNext [10, 41, 69]) 100 1000 0 (histFuel 30 100) 30 = [41, 69] := by decide
+example : validDims (some (4, 1)) = true ∧ [10, 41, 69].Pairwise (· < ·) := by decide
 
 example : histTicks (fun t => some (tickerNext 10 true t)) 35 1000 0 (histFuel 5 35) 5 = [10, 20, 30] := by decide
 example : histTicks (fun t => some (tickerNext 10 false t)) 35 22 1 (histFuel 5 35) 5 = [15] := by decide
